@@ -1,5 +1,346 @@
-import Gama.Model.PointId
-import Gama.Model.Input
+/-
+  C07 — Equivalent descriptions of the same survey give the same adjustment.
+
+  Every row-level theorem is about `Gama/Gen/Linearization.lean`, regenerated from
+  /repo/lib/gnu_gama/local/local_linearization.cpp and bearing.cpp on every run (this check
+  calls C05's translator), instantiated at ℝ (`Gama/Lemmas/LinSpec.lean`).  A re-expression is a
+  map on observation records (`trObs`, `rotObs`, `swapObs`, `flipObs`/`negObs`: `Lemmas/C07Lin.lean`);
+  `coef row r c` is the coefficient of the unknown `(role r, coordinate c)` in a row.  The row
+  relations are transported to solutions (`LS.IsLSSolution`: x, residuals v, Φ = vᵀPv, second
+  criterion) by LS5 `IsLSSolution.perm`, LS6 `IsLSSolution.shift_single` and the two sign lemmas
+  of `Lemmas/C07LS.lean`.
+
+  Outside the theorems (explored by the metamorphic search only): the iteration of the
+  linearisation to convergence, the approximate orientation (F15), number parsing/printing, and
+  the statistics printed from the cofactor matrix.
+-/
+import Gama.Lemmas.C07Lin
+import Gama.Lemmas.C07Perm
+import Gama.Lemmas.C07LS
+import Gama.Lemmas.C07Input
+import Gama.Lemmas.C07PointId
 namespace Gama.Props.C07
-theorem stub : (1 : Nat) = 1 := rfl
+open Gama Gama.Lin Real Matrix
+
+/-! ## translation -/
+
+/-- translating every point (and the observed value of `X`, `Y`, `Z` observations) leaves the
+    complete linearised row — right-hand side, coefficients, index events, thrown errors — of
+    every one of the 13 observation types unchanged: only coordinate differences are read -/
+theorem C07_translation (tx ty tz : ℝ) (fuel : Nat) (o : Obs ℝ) :
+    Gen.Lin.direction fuel (trObs tx ty tz o) = Gen.Lin.direction fuel o ∧
+    Gen.Lin.distance fuel (trObs tx ty tz o) = Gen.Lin.distance fuel o ∧
+    Gen.Lin.angle fuel (trObs tx ty tz o) = Gen.Lin.angle fuel o ∧
+    Gen.Lin.azimuth fuel (trObs tx ty tz o) = Gen.Lin.azimuth fuel o ∧
+    Gen.Lin.s_distance fuel (trObs tx ty tz o) = Gen.Lin.s_distance fuel o ∧
+    Gen.Lin.z_angle fuel (trObs tx ty tz o) = Gen.Lin.z_angle fuel o ∧
+    Gen.Lin.h_diff fuel (trObs tx ty tz o) = Gen.Lin.h_diff fuel o ∧
+    Gen.Lin.xdiff fuel (trObs tx ty tz o) = Gen.Lin.xdiff fuel o ∧
+    Gen.Lin.ydiff fuel (trObs tx ty tz o) = Gen.Lin.ydiff fuel o ∧
+    Gen.Lin.zdiff fuel (trObs tx ty tz o) = Gen.Lin.zdiff fuel o ∧
+    Gen.Lin.x fuel { trObs tx ty tz o with value := o.value + tx } = Gen.Lin.x fuel o ∧
+    Gen.Lin.y fuel { trObs tx ty tz o with value := o.value + ty } = Gen.Lin.y fuel o ∧
+    Gen.Lin.z fuel { trObs tx ty tz o with value := o.value + tz } = Gen.Lin.z fuel o :=
+  ⟨direction_tr .., distance_tr .., angle_tr .., azimuth_tr .., s_distance_tr .., z_angle_tr .., h_diff_tr ..,
+   xdiff_tr .., ydiff_tr .., zdiff_tr .., x_tr .., y_tr .., z_tr ..⟩
+
+/-! ## turning the zero of a direction set -/
+
+/-- every direction of the set read `c` larger: the coefficients (all events) are unchanged and the
+    right-hand side grows by `R2CC·c` up to whole circles; exactly `R2CC·c` when the shifted value
+    stays in the window `(-200 gon, 200 gon]` — otherwise it WRAPS (the stated exception: then the
+    rows of one set are shifted by different amounts and the set is not a pure shift along the
+    orientation column) -/
+theorem C07_circle_rotation (fuel fuel' : Nat) (c : ℝ) (o : Obs ℝ) (out out' : LinOut ℝ) (h : ¬ hdist o < CUT)
+    (hok : Gen.Lin.direction fuel o = .ok out) (hok' : Gen.Lin.direction fuel' (rotObs c o) = .ok out') :
+    out'.evs = out.evs ∧ (∃ k : ℤ, out'.rhs = out.rhs + c * R2CC - k * FULL) ∧
+      (-HALF < out.rhs + c * R2CC → out.rhs + c * R2CC ≤ HALF → out'.rhs = out.rhs + c * R2CC) :=
+  ⟨(direction_rot fuel fuel' c o out out' h hok hok').1, (direction_rot fuel fuel' c o out out' h hok hok').2,
+   direction_rot_nowrap fuel fuel' c o out out' h hok hok'⟩
+
+/-- the orientation coefficient of every direction row is `-1` (sign convention `v = Ax - b`) -/
+theorem C07_orientation_coefficient (fuel : Nat) (o : Obs ℝ) (out : LinOut ℝ) (h : ¬ hdist o < CUT)
+    (hok : Gen.Lin.direction fuel o = .ok out) : coef out.pushes .station .ori = -1 := by
+  have e := (direction_ok fuel o out h hok).2
+  simp only [LinOut.pushes, e, directionEvs]
+  cases o.pfrom.free_xy <;> cases o.pto.free_xy <;> simp [coef, pushes]
+
+/-- LS6: if exactly the rows `R` (the directions of one set, none of which wraps) have `-1` in the
+    orientation column `k`, every other row `0`, and their right-hand sides grow by `d = R2CC·c`,
+    then coordinates, residuals and Φ are unchanged and the orientation unknown changes by `-d`,
+    provided the orientation unknown is not in the regularisation subset -/
+theorem C07_circle_rotation_solution {𝕜 m n : Type*} [Field 𝕜] [Fintype m] [Fintype n] [DecidableEq m] [DecidableEq n]
+    {A : Matrix m n 𝕜} {b b' : m → 𝕜} {P : Matrix m m 𝕜} {S : Finset n} {x : n → 𝕜} {v : m → 𝕜} {rtr : 𝕜}
+    (k : n) (R : Finset m) (d : 𝕜) (hk : k ∉ S)
+    (hcol : ∀ i, A i k = if i ∈ R then -1 else 0) (hb : ∀ i, b' i = if i ∈ R then b i + d else b i)
+    (h : LS.IsLSSolution A b P S x v rtr) :
+    LS.IsLSSolution A b' P S (x + (-d) • Pi.single k 1) v rtr := by
+  rw [LS.rhs_shift_eq k R d b' hcol hb]
+  exact h.shift_single k (-d) hk
+
+/-! ## exchanging the ends of an observation -/
+
+/-- distance and slope distance: same right-hand side, the coefficients of the two ends are
+    exchanged with the ends; height and coordinate differences: the row changes sign together with
+    the observed value -/
+theorem C07_swap_distance (fuel : Nat) (o : Obs ℝ) :
+    (∀ out out', ¬ hdist o < CUT → Gen.Lin.distance fuel o = .ok out → Gen.Lin.distance fuel (swapObs o) = .ok out' →
+        out'.rhs = out.rhs ∧ ∀ r c, coef out'.pushes (swapRole r) c = coef out.pushes r c) ∧
+    (∀ out out', Gen.Lin.s_distance fuel o = .ok out → Gen.Lin.s_distance fuel (swapObs o) = .ok out' →
+        out'.rhs = out.rhs ∧ ∀ r c, coef out'.pushes (swapRole r) c = coef out.pushes r c) ∧
+    (∃ out out', Gen.Lin.h_diff fuel o = .ok out ∧ Gen.Lin.h_diff fuel { swapObs o with value := -o.value } = .ok out' ∧
+        out'.rhs = -out.rhs ∧ ∀ r c, coef out'.pushes (swapRole r) c = -coef out.pushes r c) ∧
+    (∃ out out', Gen.Lin.xdiff fuel o = .ok out ∧ Gen.Lin.xdiff fuel { swapObs o with value := -o.value } = .ok out' ∧
+        out'.rhs = -out.rhs ∧ ∀ r c, coef out'.pushes (swapRole r) c = -coef out.pushes r c) ∧
+    (∃ out out', Gen.Lin.ydiff fuel o = .ok out ∧ Gen.Lin.ydiff fuel { swapObs o with value := -o.value } = .ok out' ∧
+        out'.rhs = -out.rhs ∧ ∀ r c, coef out'.pushes (swapRole r) c = -coef out.pushes r c) ∧
+    (∃ out out', Gen.Lin.zdiff fuel o = .ok out ∧ Gen.Lin.zdiff fuel { swapObs o with value := -o.value } = .ok out' ∧
+        out'.rhs = -out.rhs ∧ ∀ r c, coef out'.pushes (swapRole r) c = -coef out.pushes r c) :=
+  ⟨fun out out' h => distance_swap fuel o out out' h, fun out out' => s_distance_swap fuel o out out',
+   h_diff_swap fuel o, xdiff_swap fuel o, ydiff_swap fuel o, zdiff_swap fuel o⟩
+
+/-! ## order of points / clusters / observations, names of points -/
+
+/-- index assignment "first use wins": every index written into a row equals the index its unknown
+    has at the end of the pass, so a row is determined by the identities of its unknowns; the
+    table stays a bijection onto `1..maxn` and an index once assigned never changes -/
+theorem C07_index_first_use {K : Type} (name : Role → Coord → Unk) (evs : List (Ev K)) (s : IdxState)
+    (h : s.WF) (hw : wellTouched evs [] = true) :
+    (runEvs name evs s).2 = (pushes evs).map (fun p => ((runEvs name evs s).1.get (name p.1 p.2.1), p.2.2)) ∧
+    (runEvs name evs s).1.WF ∧ ∀ u, s.get u ≠ 0 → (runEvs name evs s).1.get u = s.get u :=
+  ⟨runEvs_rows_final name evs s [] h (by simp) hw, (runEvs_wf name evs s h).1, (runEvs_wf name evs s h).2.2⟩
+
+/-- the design matrix `project_equations` builds (`codeMatrix`: row `r` = the `(index, coeff)` pairs
+    of the `r`-th processed observation, columns `1..maxn` of the final index table) for two
+    processing orders `σ`, `τ` of the same observations: `A_τ = A_σ.submatrix ρ κ` with the row
+    permutation `ρ = σ⁻¹ ∘ τ` and the column renumbering `κ = index_σ ∘ index_τ⁻¹` (both tables
+    index exactly the allocated unknowns `touchedSet`, whatever the order) -/
+theorem C07_permutation_matrix {K : Type} [Field K] {m : Nat} (obs : Fin m → Ob K)
+    (hw : ∀ i, wellTouched (obs i).evs [] = true) (σ τ : Equiv.Perm (Fin m)) :
+    codeMatrix obs τ =
+      (codeMatrix obs σ).submatrix (τ.trans σ.symm) ((colEq obs hw τ).symm.trans (colEq obs hw σ)) :=
+  codeMatrix_perm obs hw σ τ
+
+/-- reordering observations (hence clusters, and — since points are numbered on first use — points):
+    a solution of the problem generated in order `σ` (right-hand sides `rhs`, weights `W` attached to
+    the observations) gives the solution of the problem generated in order `τ`: unknowns renumbered
+    by `κ`, residuals permuted by `ρ`, same Φ, regularisation subset transported (LS5 applied to the
+    generated matrices) -/
+theorem C07_permutation {K : Type} [Field K] {m : Nat} (obs : Fin m → Ob K)
+    (hw : ∀ i, wellTouched (obs i).evs [] = true) (rhs : Fin m → K) (W : Matrix (Fin m) (Fin m) K)
+    (σ τ : Equiv.Perm (Fin m)) (S : Finset (Fin (finalState obs σ).maxn))
+    (x : Fin (finalState obs σ).maxn → K) (v : Fin m → K) (rtr : K)
+    (h : LS.IsLSSolution (codeMatrix obs σ) (rhs ∘ σ) (W.submatrix σ σ) S x v rtr) :
+    LS.IsLSSolution (codeMatrix obs τ) (rhs ∘ τ) (W.submatrix τ τ)
+      (S.map ((colEq obs hw τ).symm.trans (colEq obs hw σ)).symm.toEmbedding)
+      (x ∘ ((colEq obs hw τ).symm.trans (colEq obs hw σ))) (v ∘ (τ.trans σ.symm)) rtr := by
+  have := h.perm (τ.trans σ.symm) ((colEq obs hw τ).symm.trans (colEq obs hw σ))
+  rw [← codeMatrix_perm obs hw σ τ] at this
+  have e1 : (rhs ∘ σ) ∘ (τ.trans σ.symm) = rhs ∘ τ := by funext r; simp
+  have e2 : (W.submatrix σ σ).submatrix (τ.trans σ.symm) (τ.trans σ.symm) = W.submatrix τ τ := by
+    ext r c; simp
+  rw [e1, e2] at this
+  exact this
+
+/-- LS5: the solution of the row- and column-permuted problem is the permuted solution (same
+    residuals per observation, same Φ, regularisation subset transported) -/
+theorem C07_permutation_solution {𝕜 m n m' n' : Type*} [Field 𝕜] [Fintype m] [Fintype n] [Fintype m'] [Fintype n']
+    {A : Matrix m n 𝕜} {b : m → 𝕜} {P : Matrix m m 𝕜} {S : Finset n} {x : n → 𝕜} {v : m → 𝕜} {rtr : 𝕜}
+    (e₁ : m' ≃ m) (e₂ : n' ≃ n) (h : LS.IsLSSolution A b P S x v rtr) :
+    LS.IsLSSolution (A.submatrix e₁ e₂) (b ∘ e₁) (P.submatrix e₁ e₁) (S.map e₂.symm.toEmbedding) (x ∘ e₂) (v ∘ e₁) rtr :=
+  h.perm e₁ e₂
+
+/-- renaming the points (any injective map of the unknowns' identities) changes nothing in the
+    rows: same indices, same coefficients; only the table is relabelled.  (Index assignment follows
+    the order of the observations, not the order of the point map.) -/
+theorem C07_rename {K : Type} (f : Unk → Unk) (hf : Function.Injective f) (name : Role → Coord → Unk)
+    (evs : List (Ev K)) (s : IdxState) :
+    runEvs (fun r c => f (name r c)) evs (s.mapKeys f) = ((runEvs name evs s).1.mapKeys f, (runEvs name evs s).2) :=
+  runEvs_rename f hf name evs s
+
+/-- `PointID::operator<` (as coded: numeric ids by value first, then byte strings) is a strict total
+    order on the identifiers `PointID::init` makes out of ANY byte strings: irreflexive, transitive,
+    trichotomous, and `==` is equality of the normalised identifier — `std::map<PointID, …>` is used
+    within its contract -/
+theorem C07_pointid_total_order (s t u : PointId.Bytes) :
+    PointId.lt (PointId.init s) (PointId.init s) = false ∧
+    (PointId.lt (PointId.init s) (PointId.init t) = true → PointId.lt (PointId.init t) (PointId.init u) = true →
+        PointId.lt (PointId.init s) (PointId.init u) = true) ∧
+    (PointId.lt (PointId.init s) (PointId.init t) = true ∨ PointId.init s = PointId.init t ∨
+        PointId.lt (PointId.init t) (PointId.init s) = true) ∧
+    (PointId.lt (PointId.init s) (PointId.init t) = true → PointId.lt (PointId.init t) (PointId.init s) = false) ∧
+    (PointId.eq (PointId.init s) (PointId.init t) = true ↔ PointId.init s = PointId.init t) ∧
+    PointId.ne (PointId.init s) (PointId.init t) = !PointId.eq (PointId.init s) (PointId.init t) :=
+  ⟨PointId.lt_irrefl _, PointId.lt_trans, PointId.lt_trichotomy (PointId.init_valid s) (PointId.init_valid t),
+   PointId.lt_asymm, PointId.eq_iff _ _, PointId.ne_eq_not_eq _ _⟩
+
+/-! ## degrees instead of gons -/
+
+/-- a sexagesimal reading `d-m-s` with its standard deviation in seconds of arc, and the centesimal
+    value `g = (d + m/60 + s/3600)·10/9` with the standard deviation `σ` in cc where the seconds are
+    `0.324·σ`: same stored value (radians), same variance, hence the same row of every angular type;
+    `1.0/0.324` is exactly `400·10⁴/(360·3600)` -/
+theorem C07_deg_gon (d m : Nat) (s g σ : ℝ) (hg : g = ((d : ℝ) + (m : ℝ) / 60 + s / 3600) * (10 / 9))
+    (fuel : Nat) (o : Obs ℝ) :
+    Input.toRadians (Input.deg2gonValue false d m s : ℝ) = Input.toRadians g ∧
+    Input.variance (0.324 * σ) true = Input.variance σ false ∧
+    (Input.secScale : ℝ) = (400 * 10 ^ 4) / (360 * 3600) ∧
+    Gen.Lin.direction fuel { o with value := Input.toRadians (Input.deg2gonValue false d m s : ℝ) } =
+      Gen.Lin.direction fuel { o with value := Input.toRadians g } ∧
+    Gen.Lin.angle fuel { o with value := Input.toRadians (Input.deg2gonValue false d m s : ℝ) } =
+      Gen.Lin.angle fuel { o with value := Input.toRadians g } ∧
+    Gen.Lin.z_angle fuel { o with value := Input.toRadians (Input.deg2gonValue false d m s : ℝ) } =
+      Gen.Lin.z_angle fuel { o with value := Input.toRadians g } ∧
+    Gen.Lin.azimuth fuel { o with value := Input.toRadians (Input.deg2gonValue false d m s : ℝ) } =
+      Gen.Lin.azimuth fuel { o with value := Input.toRadians g } := by
+  have e := Input.toRadians_deg d m s g hg
+  exact ⟨e, Input.variance_deg σ, Input.secScale_real, by rw [e], by rw [e], by rw [e], by rw [e]⟩
+
+/-! ## mirrored axes, sense of angles -/
+
+/-- `remove_inconsistency` acts exactly when axes and angles disagree (then: y of the points, values
+    of `Y`/`Ydiff`, covariances between mirrored and other components change sign —
+    `Input.changeYSigns_spec`), is idempotent and undone by `return_inconsistency`; the printed y is
+    `y_sign·y` with `y_sign² = 1` -/
+theorem C07_remove_inconsistency (n : Input.Net ℝ) :
+    (Input.consistent n.cs n.leftHandedAngles = true → Input.removeInconsistency n = n) ∧
+    Input.removeInconsistency (Input.removeInconsistency n) = Input.removeInconsistency n ∧
+    (n.removed = false → Input.returnInconsistency (Input.removeInconsistency n) = n) ∧
+    (Input.ySign n.cs n.leftHandedAngles : ℝ) * Input.ySign n.cs n.leftHandedAngles = 1 := by
+  refine ⟨fun h => by simp [Input.removeInconsistency, h], Input.removeInconsistency_idem n, Input.return_remove n,
+    Input.ySign_sq _ _⟩
+
+/-- mirroring y (what `remove_inconsistency` does to the coordinates) in the linearised problem, all
+    13 types.  Distance, slope distance, zenith angle: same right-hand side, exactly the
+    y-coefficients change sign; height differences, `X`, `Z`, `Xdiff`, `Zdiff`: literally unchanged;
+    `Y`/`Ydiff` with negated value: right-hand side negated, coefficients kept (= the negative of the
+    row with the y-column negated); direction, azimuth, angle read in the other sense (`negObs`: value,
+    orientation, bearing of the x axis negated): the coefficients are the negative of the row with the
+    y- and orientation-columns negated, and the right-hand side is exactly the negative one — except
+    at the closed end of the window: `+200 gon` stays `+200 gon` -/
+theorem C07_mirror (fuel fuel' : Nat) (o : Obs ℝ) :
+    (∀ out out', ¬ hdist o < CUT → Gen.Lin.distance fuel o = .ok out → Gen.Lin.distance fuel (flipObs o) = .ok out' →
+        out'.rhs = out.rhs ∧ ∀ r c, coef out'.pushes r c = ySgn c * coef out.pushes r c) ∧
+    (∀ out out', Gen.Lin.s_distance fuel o = .ok out → Gen.Lin.s_distance fuel (flipObs o) = .ok out' →
+        out'.rhs = out.rhs ∧ ∀ r c, coef out'.pushes r c = ySgn c * coef out.pushes r c) ∧
+    (∀ out out', Gen.Lin.z_angle fuel o = .ok out → Gen.Lin.z_angle fuel (flipObs o) = .ok out' →
+        out'.rhs = out.rhs ∧ ∀ r c, coef out'.pushes r c = ySgn c * coef out.pushes r c) ∧
+    Gen.Lin.h_diff fuel (flipObs o) = Gen.Lin.h_diff fuel o ∧ Gen.Lin.x fuel (flipObs o) = Gen.Lin.x fuel o ∧
+    Gen.Lin.z fuel (flipObs o) = Gen.Lin.z fuel o ∧ Gen.Lin.xdiff fuel (flipObs o) = Gen.Lin.xdiff fuel o ∧
+    Gen.Lin.zdiff fuel (flipObs o) = Gen.Lin.zdiff fuel o ∧
+    (∃ out out', Gen.Lin.y fuel o = .ok out ∧ Gen.Lin.y fuel { flipObs o with value := -o.value } = .ok out' ∧
+        out'.rhs = -out.rhs ∧ out'.evs = out.evs) ∧
+    (∃ out out', Gen.Lin.ydiff fuel o = .ok out ∧ Gen.Lin.ydiff fuel { flipObs o with value := -o.value } = .ok out' ∧
+        out'.rhs = -out.rhs ∧ out'.evs = out.evs) ∧
+    (∀ out out', ¬ hdist o < CUT → Gen.Lin.direction fuel o = .ok out → Gen.Lin.direction fuel' (negObs o) = .ok out' →
+        ((out.rhs ≠ HALF → out'.rhs = -out.rhs) ∧ (out.rhs = HALF → out'.rhs = HALF)) ∧
+          ∀ r c, coef out'.pushes r c = -(mirrorSgn c * coef out.pushes r c)) ∧
+    (∀ out out', ¬ hdist o < CUT → Gen.Lin.azimuth fuel o = .ok out → Gen.Lin.azimuth fuel' (negObs o) = .ok out' →
+        ((out.rhs ≠ HALF → out'.rhs = -out.rhs) ∧ (out.rhs = HALF → out'.rhs = HALF)) ∧
+          ∀ r c, coef out'.pushes r c = -(mirrorSgn c * coef out.pushes r c)) ∧
+    (∀ out out', ¬ hdist o < CUT → ¬ hdist2 o < CUT → Gen.Lin.angle fuel o = .ok out →
+        Gen.Lin.angle fuel' (negObs o) = .ok out' →
+        ((out.rhs ≠ HALF → out'.rhs = -out.rhs) ∧ (out.rhs = HALF → out'.rhs = HALF)) ∧
+          ∀ r c, coef out'.pushes r c = -(mirrorSgn c * coef out.pushes r c)) :=
+  ⟨fun out out' h => distance_flip fuel o out out' h, fun out out' => s_distance_flip fuel o out out',
+   fun out out' => z_angle_flip fuel o out out',
+   h_diff_flip fuel o, x_flip fuel o, z_flip fuel o, xdiff_flip fuel o, zdiff_flip fuel o, y_flip fuel o, ydiff_flip fuel o,
+   fun out out' h hok hok' => ⟨direction_flip_rhs fuel fuel' o out out' h hok hok', (direction_flip fuel fuel' o out out' h hok hok').2⟩,
+   fun out out' h => azimuth_flip fuel fuel' o out out' h,
+   fun out out' h h2 => angle_flip fuel fuel' o out out' h h2⟩
+
+/-- transport of the mirror relation: negating the columns `t j = -1` (y unknowns, orientations)
+    and the rows `s i = -1` (angular rows, `Y`, `Ydiff`) together with their right-hand sides gives
+    the solution with those unknowns and residuals negated and the same Φ — PROVIDED the weight
+    matrix is conjugated by the row signs -/
+theorem C07_mirror_solution {𝕜 m n : Type*} [Field 𝕜] [Fintype m] [Fintype n] [DecidableEq m] [DecidableEq n]
+    {A : Matrix m n 𝕜} {b : m → 𝕜} {P : Matrix m m 𝕜} {S : Finset n} {x : n → 𝕜} {v : m → 𝕜} {rtr : 𝕜}
+    (s : m → 𝕜) (t : n → 𝕜) (hs : ∀ i, s i * s i = 1) (ht : ∀ j, t j * t j = 1)
+    (h : LS.IsLSSolution A b P S x v rtr) :
+    LS.IsLSSolution (diagonal s * A * diagonal t) (diagonal s *ᵥ b) (diagonal s * P * diagonal s) S
+      (diagonal t *ᵥ x) (diagonal s *ᵥ v) rtr :=
+  (h.rowSign s hs).colSign t ht
+
+/-- the modelled normalisation (`change_y_signs_for_inconsistent_system_` after fix c7fddb0; C07-F1
+    before it: the covariances kept their sign, regression inputs corpus/C07/f1-mirror-covariance.*)
+    conjugates the covariance matrix of every cluster by the signs of its mirrored components,
+    `C' = D_s C D_s` with `s = -1` exactly on `Y`/`Ydiff`, hence its weight matrix too
+    (`C P = 1 → C' (D_s P D_s) = 1`) — which is the weight matrix `C07_mirror_solution` asks for -/
+theorem C07_mirror_covariance (obs : List (Input.NetObs ℝ)) (d : Nat) (hd : d ≤ obs.length) (C : Nat → Nat → ℝ)
+    (P : Matrix (Fin d) (Fin d) ℝ) (hP : (Matrix.of fun i j : Fin d => C i j) * P = 1) :
+    (Matrix.of fun i j : Fin d => (Input.flipCluster ⟨obs, d, C⟩).cov i j) =
+        diagonal (fun i : Fin d => Input.sgnAt obs i) * (Matrix.of fun i j : Fin d => C i j) *
+          diagonal (fun i : Fin d => Input.sgnAt obs i) ∧
+    (Matrix.of fun i j : Fin d => (Input.flipCluster ⟨obs, d, C⟩).cov i j) *
+        (diagonal (fun i : Fin d => Input.sgnAt obs i) * P * diagonal (fun i : Fin d => Input.sgnAt obs i)) = 1 ∧
+    (∀ i : Fin d, Input.sgnAt obs i = if (obs[(i : Nat)]?.map Input.NetObs.mirrored).getD false then -1 else 1) := by
+  have e := Input.flipCov_conj obs d hd C
+  refine ⟨e, ?_, fun i => ?_⟩
+  · show (Matrix.of fun i j : Fin d => Input.flipCov obs d C i j) * _ = 1
+    rw [e]
+    exact Input.conj_inverse _ (fun i => Input.sgnAt_sq obs i) _ P hP
+  · unfold Input.sgnAt Input.mirroredAt
+    cases obs[(i : Nat)]? <;> rfl
+
+/-! ## non-vacuity -/
+
+/-- a concrete sight (3-4-5 triangle, both ends free) on which translation, swap and mirror
+    theorems have their hypotheses met and all four coefficients present -/
+example : ∃ o : Obs ℝ, ¬ hdist o < CUT ∧ (∃ out, Gen.Lin.distance 0 o = .ok out ∧ out.pushes.length = 4) ∧
+    (∃ out, Gen.Lin.distance 0 (swapObs o) = .ok out ∧ out.pushes.length = 4) ∧
+    (∃ out, Gen.Lin.distance 0 (flipObs o) = .ok out ∧ out.pushes.length = 4) := by
+  have hc : ¬ hdist Lin.face2Witness < CUT := by rw [Lin.face2Witness_hdist]; unfold CUT; norm_num
+  have hs : ¬ hdist (swapObs Lin.face2Witness) < CUT := by rw [hdist_swap]; exact hc
+  have hf : ¬ hdist (flipObs Lin.face2Witness) < CUT := by rw [hdist_flip]; exact hc
+  refine ⟨Lin.face2Witness, hc, ⟨_, Lin.distance_eq 0 _ hc, ?_⟩, ⟨_, Lin.distance_eq 0 _ hs, ?_⟩, ⟨_, Lin.distance_eq 0 _ hf, ?_⟩⟩ <;>
+    simp [LinOut.pushes, pushes, Lin.face2Witness, swapObs, flipObs, flipPt, Pt.free_xy, Status.isFree]
+
+/-- the rotation theorem's hypotheses are met: a direction and the same direction read 50 gon larger
+    both linearise -/
+example : ∃ o : Obs ℝ, ¬ hdist o < CUT ∧ (∃ f out, Gen.Lin.direction f o = .ok out) ∧
+    (∃ f out, Gen.Lin.direction f (rotObs (π / 4) o) = .ok out) := by
+  have hc : ¬ hdist Lin.face2Witness < CUT := by rw [Lin.face2Witness_hdist]; unfold CUT; norm_num
+  exact ⟨Lin.face2Witness, hc, Lin.direction_terminates _ hc, Lin.direction_terminates (rotObs (π / 4) Lin.face2Witness) hc⟩
+
+/-- PointID: numeric before alphabetic, by value not by spelling ("9" < "10" < "01" < "1a"); "01" is not
+    numeric; white space is normalised (" a  \tb " = "a b"); bytes ≥ 0x80 compare as unsigned ("z" < "é") -/
+example : PointId.lt (PointId.init [57]) (PointId.init [49, 48]) = true ∧
+    PointId.lt (PointId.init [49, 48]) (PointId.init [48, 49]) = true ∧
+    PointId.lt (PointId.init [48, 49]) (PointId.init [49, 97]) = true ∧
+    PointId.init [32, 97, 32, 32, 9, 98, 32] = PointId.init [97, 32, 98] ∧
+    PointId.lt (PointId.init [122]) (PointId.init [195, 169]) = true := by decide
+
+/-- a comparison that took the numeric value of ANY digit string ("01" ~ "1") would not be a total
+    order with `==` as its equality: the mutant `initLoose` has two distinct ids neither of which
+    is smaller -/
+example : PointId.lt (PointId.initLoose [48, 49]) (PointId.initLoose [49]) = false ∧
+    PointId.lt (PointId.initLoose [49]) (PointId.initLoose [48, 49]) = false ∧
+    PointId.initLoose [48, 49] ≠ PointId.initLoose [49] := by decide
+
+/-- an index state with two unknowns meets the hypotheses of the permutation theorem; renaming by
+    an injective map is available (shift of the point number) -/
+example : (IdxState.init.touch ⟨0, .x⟩).WF ∧ Function.Injective (fun u : Unk => (⟨u.id + 7, u.c⟩ : Unk)) :=
+  ⟨IdxState.touch_wf IdxState.wf_init _, fun a b h => by cases a; cases b; simp only [Unk.mk.injEq] at h ⊢; exact ⟨by omega, h.2⟩⟩
+
+/-- the permutation theorem is not vacuous: two observations sharing one unknown, processed in the
+    two possible orders, both satisfy the hypothesis, allocate the same three unknowns and number
+    them differently (the shared unknown is column 2 in one order and column 1 in the other) -/
+example : ∃ obs : Fin 2 → Ob ℝ, (∀ i, wellTouched (obs i).evs [] = true) ∧
+    (finalState obs (Equiv.refl _)).maxn = 3 ∧ (finalState obs (Equiv.swap 0 1)).maxn = 3 ∧
+    (finalState obs (Equiv.refl _)).get ⟨2, .z⟩ = 2 ∧ (finalState obs (Equiv.swap 0 1)).get ⟨2, .z⟩ = 1 := by
+  refine ⟨![⟨fun r _ => match r with | .pfrom => ⟨1, .z⟩ | _ => ⟨2, .z⟩,
+              [Ev.touch .pfrom .z, Ev.push .pfrom .z (-1), Ev.touch .pto .z, Ev.push .pto .z 1]⟩,
+            ⟨fun r _ => match r with | .pfrom => ⟨2, .z⟩ | _ => ⟨3, .z⟩,
+              [Ev.touch .pfrom .z, Ev.push .pfrom .z (-1), Ev.touch .pto .z, Ev.push .pto .z 1]⟩], ?_, ?_, ?_, ?_, ?_⟩
+  · intro i; fin_cases i <;> rfl
+  all_goals decide
+
+/-- 10-20-30 sexagesimal is 11.4907… gon = (10 + 20/60 + 30/3600)·10/9 -/
+example : (Input.deg2gonValue false 10 20 (30 : ℝ) : ℝ) = ((10 : ℝ) + 20 / 60 + 30 / 3600) * (400 / 360) := by
+  have := Input.deg2gonValue_pos 10 20 (30 : ℝ); simpa using this
+
+/-- all sixteen axes/angles combinations: eight consistent, eight not -/
+example : ((List.product [CS.EN, .NW, .SE, .WS, .NE, .SW, .ES, .WN] [true, false]).filter
+    (fun p => Input.consistent p.1 p.2)).length = 8 := by decide
+
 end Gama.Props.C07
